@@ -57,6 +57,12 @@ pub struct Case {
     /// the last queue handle goes away (a caller that fired a flush and kept the future around)
     #[serde(default)]
     pub keep_flush_futures: bool,
+    /// per-entry stream results (Ok / Io only: a validation error would add the in-band report)
+    #[serde(default)]
+    pub results: Vec<crate::iofault::SRes>,
+    /// results of successive stream.flush() calls, repeating (true = Ok)
+    #[serde(default)]
+    pub flush_results: Vec<bool>,
 }
 
 metrique_writer::sink::global_entry_sink! { C05Global }
@@ -70,7 +76,9 @@ pub fn check(case: &Case) -> CaseResult {
     };
     let log = Arc::new(EventLog::default());
     let gate = Gate::new(false);
-    let mut stream = BqStream::new(vec![], gate.clone(), log.clone());
+    let mut stream = BqStream::new(case.results.clone(), gate.clone(), log.clone());
+    stream.flush_ok = case.flush_results.clone();
+    stream.cycle = true;
     let hold = Arc::new(FlushHold::default());
     stream.flush_hold = Some(hold.clone());
     let interval = if case.flush_ms { Duration::from_millis(1) } else { Duration::from_micros(50) };
@@ -264,6 +272,7 @@ pub fn check(case: &Case) -> CaseResult {
                 if block_on_timeout(f, Duration::from_secs(5)).is_none() {
                     vfail!("shutdown:flush-never-completes", "flush {i} requested before shutdown never completed");
                 }
+                log.push(Ev::FlushDone(i));
             }
             super::c04::check_flush_barrier(&log.snapshot(), usize::MAX)?;
             if queued_at_end {
@@ -358,21 +367,27 @@ pub fn check(case: &Case) -> CaseResult {
     if gate.timed_out.load(std::sync::atomic::Ordering::Relaxed) {
         return Ok(vec!["inconclusive-timeout"]);
     }
+    if case.results.iter().any(|r| *r != crate::iofault::SRes::Ok) {
+        classes.push("stream-io-results");
+    }
+    if case.flush_results.iter().any(|b| !*b) {
+        classes.push("stream-flush-errors");
+    }
     classes.sort();
     classes.dedup();
     Ok(classes)
 }
 
-pub const RULE: &str = "histories of Append(n) / Clone / DropClone / FlushReq / Grant(k) on a typed or boxed queue whose writer is stalled behind a fuel gate, ended by (a) dropping the join handle while entries are still queued (a helper opens the gate after the drop began; in 30% of these cases the drop is performed by a guard object while its thread unwinds from a panic), (b) forgetting the join handle and dropping every queue handle (flush futures requested earlier dropped first, or - half of the cases - kept alive and unawaited) - also with the last appends and the drop of the last handle placed while the writer thread is held inside one of its periodic stream flushes (harness-owned flush callback), (c) the same queue attached to a harness-declared global_entry_sink! and detached by dropping the AttachHandle, in half of these cases while another thread keeps calling try_append on the global; then appends after the end. Oracle over the event log: when the drop returns every entry appended before it began has reached the stream, the stream was flushed after the last of them and dropped; later appends never appear (try_append hands the entry back for a detached global); pending flush futures complete. Forget path, decided by counting: after the last queue handle is dropped the stream must be drained, flushed and dropped before 60 further periodic stream flushes are observed (else 'runs forever'); 10 s without either is inconclusive. Non-trivial = shutdown begins with entries still queued, or the forget path";
+pub const RULE: &str = "histories of Append(n) / Clone / DropClone / FlushReq / Grant(k) on a typed or boxed queue whose writer is stalled behind a fuel gate and whose stream answers entries with a repeating Ok / Io script and flushes with a repeating Ok / error script, ended by (a) dropping the join handle while entries are still queued (a helper opens the gate after the drop began; in 30% of these cases the drop is performed by a guard object while its thread unwinds from a panic), (b) forgetting the join handle and dropping every queue handle (flush futures requested earlier dropped first, or - half of the cases - kept alive and unawaited) - also with the last appends and the drop of the last handle placed while the writer thread is held inside one of its periodic stream flushes (harness-owned flush callback), (c) the same queue attached to a harness-declared global_entry_sink! and detached by dropping the AttachHandle, in half of these cases while another thread keeps calling try_append on the global; then appends after the end. Oracle over the event log: when the drop returns every entry appended before it began has reached the stream, the stream was flushed after the last of them and dropped; later appends never appear (try_append hands the entry back for a detached global); pending flush futures complete. Forget path, decided by counting: after the last queue handle is dropped the stream must be drained, flushed and dropped before 60 further periodic stream flushes are observed (else 'runs forever'); 10 s without either is inconclusive. Non-trivial = shutdown begins with entries still queued, or the forget path";
 
 pub fn run(ctx: &mut Ctx) {
     ctx.assume("termination of the forgotten queue is decided by counting the writer's periodic stream flushes (flush interval 1 ms / 50 us), never by a wall-clock deadline");
     let q = ctx.tier == Tier::Quick;
     ctx.explore(
-        SubCfg::new("c05-shutdown", RULE, if q { 500 } else { 12_000 })
+        SubCfg::new("c05-shutdown", RULE, if q { 1_500 } else { 30_000 })
             .threads(ctx.tier.pick(4, 8))
             .shrink_iters(60)
-            .mandatory(&["entries-queued-at-shutdown", "forget-path", "drop-handle", "global-detach", "append-after-shutdown", "last-handle-dropped-during-periodic-flush", "handle-dropped-while-unwinding", "detach-with-racing-appender", "forget-with-unawaited-flush-futures-alive"]),
+            .mandatory(&["entries-queued-at-shutdown", "forget-path", "drop-handle", "global-detach", "append-after-shutdown", "last-handle-dropped-during-periodic-flush", "handle-dropped-while-unwinding", "detach-with-racing-appender", "forget-with-unawaited-flush-futures-alive", "stream-io-results", "stream-flush-errors"]),
         || {
             (
                 any::<bool>(),
@@ -394,8 +409,12 @@ pub fn run(ctx: &mut Ctx) {
                 prop::bool::weighted(0.3),
                 prop::bool::weighted(0.5),
                 prop::bool::weighted(0.5),
+                (
+                    prop::collection::vec(prop_oneof![3 => Just(crate::iofault::SRes::Ok), 1 => Just(crate::iofault::SRes::Io)], 0..8),
+                    prop::collection::vec(prop::bool::weighted(0.6), 0..4),
+                ),
             )
-                .prop_map(|(boxed, ops, end, after, open_delay, flush_ms, during_flush, unwinding, racing_appender, keep_flush_futures)| Case {
+                .prop_map(|(boxed, ops, end, after, open_delay, flush_ms, during_flush, unwinding, racing_appender, keep_flush_futures, (results, flush_results))| Case {
                     boxed,
                     ops,
                     end,
@@ -406,6 +425,8 @@ pub fn run(ctx: &mut Ctx) {
                     unwinding,
                     racing_appender,
                     keep_flush_futures,
+                    results,
+                    flush_results,
                 })
         },
         check,
